@@ -44,9 +44,14 @@ def tasks(tier, seed):
     add(4, [3], 0)
     # nine players (ids need more than one byte), minimal knowledge, structural clauses only (no class assumption: each of them holds
     # by construction of the bounds, for any values) on the coalitions that contain the ninth player
-    # (not scheduled: the run itself takes 15 s, but each query over the 256-way max nodes costs z3 ~50 s - see DESIGN 10.5, round 5)
+    # (minimal knowledge is not scheduled: the run takes 15 s, but each query over the nested 256-way max nodes costs z3 ~50 s.  With
+    # almost everything known the bounds of the few unknown coalitions are flat max / min nodes over known values.)
     if os.environ.get("VERIF_N9") == "1":
         out.append({"key": "structural/n9/r1/K=", "n": 9, "K": [], "r": 1, "next": False, "structural": True})
+    unknown9 = [257, 258, 259, 384, 448]           # {0,8}, {1,8}, {0,1,8}, {7,8}, {6,7,8}
+    K9 = [S for S in F.extras(9) if S not in unknown9]
+    for r in (0, 1):
+        out.append({"key": f"structural/n9/r{r}/all-but-5-known", "n": 9, "K": K9, "r": r, "next": False, "structural": True})
     # seeded operation histories on one object before the computation under test (state kept outside the value table)
     for K in fam3:
         for r in (0, 1, 2):
@@ -267,7 +272,8 @@ def claims(params, inp, out, lg):
             for Q in sorted(known):
                 if Q and Q != S and (Q & S) == Q:
                     cl.append((f"upper-below-known-subcoalition:S={S}:Q={Q}", lg.le(R["U"][S], v[Q])))
-            if S & top:
+            if S & top and (S & ~top) not in known:
+                # (against a KNOWN sub-coalition this clause needs the monotonicity of the game itself: not assumption-free)
                 cl.append((f"lower-monotone:S={S & ~top}:T={S}", lg.ge(R["L"][S & ~top], R["L"][S])))
             cl.append((f"flag-unknown:S={S}", R["known"][S] is False))
         return cl
